@@ -30,6 +30,8 @@ Sane == /\ liston \in 0..3 /\ dolst \subseteq Parts /\ Len(ifs) <= 4 /\ Len(inp)
 \* SkippedNeedsRest: the manual files a skipped line under "conditional assembly" (listed with the If part);
 \* MakeList() asks for the Rest part as well
 ASSUME ManualClass(D(1, 1), FALSE, FALSE, TRUE) = "if" /\ ~ThisDoLst("rest", FALSE, {"if", "macro"})
+\* CallCountsAsMacro: {NOEXPMACRO} hides a call inside the expansion, which the manual counts among the remaining lines
+ASSUME ManualClass(L("call", 1, 1, <<>>), FALSE, TRUE, TRUE) = "rest" /\ ~ThisDoLst("macro", TRUE, {"if", "rest"})
 \* PURECODE / NOSKIPPED as the manual words them
 ASSUME \A a, i \in BOOLEAN : IFListMask(0, a, i) /\ ~IFListMask(1, a, i)
 ASSUME ~IFListMask(2, TRUE, FALSE) /\ IFListMask(2, FALSE, FALSE) /\ IFListMask(3, TRUE, TRUE) /\ ~IFListMask(3, FALSE, TRUE)
